@@ -15,6 +15,7 @@ import (
 
 	govtypes "github.com/KiraCore/sekai/x/gov/types"
 	spendingtypes "github.com/KiraCore/sekai/x/spending/types"
+	ubitypes "github.com/KiraCore/sekai/x/ubi/types"
 	upgradetypes "github.com/KiraCore/sekai/x/upgrade/types"
 	sdk "github.com/cosmos/cosmos-sdk/types"
 )
@@ -97,13 +98,14 @@ func drawDynRate(r *hx.Rng, seed uint64, adversarial bool) DynRateParams {
 		} else {
 			ps.Period = pickU(r, 1, 7, 60, 3600, 86400)
 		}
+		noClaimers := r.Chance(25) // nobody registers: the end-blocker must skip the pool (total weight 0)
 		for a := 1; a <= 4; a++ {
 			if r.Chance(50) {
 				w := pickS(r, "1", "1", "2", "0.5", "10")
 				if adversarial {
 					w = pickS(r, "1", "1", "2", "0.5", "-1", "-0.5", "0.000000000000000001", "1000000000")
 				}
-				ps.Bens = append(ps.Bens, BenSpec{a, w, r.Chance(85)})
+				ps.Bens = append(ps.Bens, BenSpec{a, w, !noClaimers && r.Chance(85)})
 			}
 		}
 		if len(ps.Bens) == 0 {
@@ -723,4 +725,38 @@ func runUpgrade(p UpgradeParams, ops hx.Counter) []Case {
 		}
 	}
 	return []Case{histCase("upgrade-halt", h, log, p)}
+}
+
+// ------------------------------------------------------------------ input-only panics are filtered by the dry run
+
+type UbiParams struct {
+	Seed   uint64 `json:"chain_seed"`
+	Period uint64 `json:"period"`
+	Amount uint64 `json:"amount"`
+}
+
+// UpsertUBI with Period = 0 divides by zero inside Apply on EVERY state: SubmitProposal's dry run must
+// fail the submission, so the content never reaches the end-blocker. A valid record exercises the UBI
+// end-blocker (mint + deposit into the spending pool) over long time gaps.
+func runUbi(p UbiParams, ops hx.Counter) []Case {
+	// the default genesis UBI record already exceeds the default hard cap (every upsert is rejected): raise the cap in genesis
+	h := NewH(abci.Config{Accounts: 4, Validators: 2, Seed: p.Seed, Gov: func(g *govtypes.GenesisState) { g.NetworkProperties.UbiHardcap = 100_000_000 }}, ops)
+	c := h.C
+	log := []string{fmt.Sprintf("chain accounts=4 validators=2 seed=%d genesis ubi_hardcap=100000000", p.Seed)}
+	a0 := c.Accounts[0].Addr
+	h.Block(BlockReq{Dt: 5}, func() {
+		content := ubitypes.NewUpsertUBIProposal("u1", uint64(c.Time.Unix()), 0, p.Amount, p.Period, "ValidatorBasicRewardsPool")
+		msg, _ := govtypes.NewMsgSubmitProposal(a0, "ubi", "ubi", content)
+		res := h.Tx("submit-proposal", 0, msg)
+		log = append(log, fmt.Sprintf("a0 submits UpsertUBI(u1, amount=%d, period=%d, pool=ValidatorBasicRewardsPool) code=%d", p.Amount, p.Period, res.Code))
+		res = h.Tx("vote-proposal", 0, govtypes.NewMsgVoteProposal(1, a0, govtypes.OptionYes, sdk.ZeroDec()))
+		log = append(log, fmt.Sprintf("a0 votes yes code=%d", res.Code))
+	}, nil)
+	for i, dt := range []int64{5, 310, 310, 5, 90000, 2700000, 5} {
+		if !h.Block(BlockReq{Dt: dt, Proposer: i}, nil, nil) {
+			break
+		}
+	}
+	log = append(log, "blocks dt=5,310,310,5,90000,2700000,5")
+	return []Case{histCase("ubi-proposal", h, log, p)}
 }
